@@ -41,3 +41,14 @@ Theorem c05_queue_bounds : forall s0 P g, reachable s0 P g ->
   0 <= qhead (gs g) <= qtail (gs g) /\ qtail (gs g) <= sn (gs g) /\ qcount (gs g) = qtail (gs g) - qhead (gs g).
 Proof. exact queue_bounds. Qed.
 Print Assumptions c05_queue_bounds.
+
+From SLU Require Import SchedModel SchedProofs SchedGuard.
+
+(* the scheduler's own arrays (pan_status[n+1], fb_cols[n+1], etree[n], the task queue[n], spin_locks[n]): in every reachable
+   state, for every thread about to call pxgstrf_scheduler, every index the call uses is inside its array (sched_guard re-runs
+   the call checking each access: queue[head], STATE(jcol), DADPANEL(jcol), queue[tail] = dad, fb_cols[jcol] and every step of
+   the climb over DONE panels) *)
+Theorem c05_scheduler_index_safe : forall s0 P g t cur,
+  reachable s0 P g -> (0 <= t < tlen (thr g))%Z -> thr_get (thr g) t = (M_READY, cur) -> sched_guard (gs g) cur = true.
+Proof. exact sched_guard_reachable. Qed.
+Print Assumptions c05_scheduler_index_safe.
